@@ -51,6 +51,12 @@ def register_contracts(I):
                 if not isinstance(f, FuncV):
                     raise VCError(f"CONTRACTS[{q!r}] in {name} is not a function")
                 I.world.contracts[q] = f
+        ab = mod.ns.get("ABSTRACT")
+        if isinstance(ab, DictV):
+            for f, spec in ab.pairs:
+                if not isinstance(f, FuncV) or not isinstance(spec, DictV):
+                    raise VCError("ABSTRACT must map spec functions to dicts")
+                I.world.abstract[f.qualname] = {k: v for k, v in spec.pairs}
         c = mod.ns.get("ASSUMED_CONTRACTS")
         if isinstance(c, DictV):
             for q, f in c.pairs:
